@@ -213,7 +213,8 @@ class GhostInstr:
 
     def value(self, env, tabs, tys):
         b = env.b
-        bits = [env.is_in(self.name, lambda n, j=j: bool(GHOST_BITS[n][j])) for j in range(6)]
+        gt = tabs.get('ghost') or GHOST_BITS          # applicability as classified by the real parser (summary), not a constant
+        bits = [env.is_in(self.name, lambda n, j=j: bool(gt[n][j])) for j in range(6)]
         core = b.mk('attr::FieldGhostAttrCore', container_ty=ded_val(env, self.ded, tys), action=opt_tokens(env, self.action, self.tag))
         return b.mk('attr::GhostAttr', attr=core, applicable_to=b.appl(bits))
 
@@ -252,7 +253,8 @@ class GhostsInstr:
 
     def value(self, env, tabs, tys):
         b = env.b
-        bits = [env.is_in(self.name, lambda n, j=j: bool(GHOSTS_BITS[n][j])) for j in range(6)]
+        gt = tabs.get('ghosts_type') or GHOSTS_BITS
+        bits = [env.is_in(self.name, lambda n, j=j: bool(gt[n][j])) for j in range(6)]
         core = b.mk('attr::StructGhostAttrCore', container_ty=ded_val(env, self.ded, tys), ghost_data=VecV([d.value(env) for d in self.data]))
         return b.mk('attr::GhostsAttr', attr=core, applicable_to=b.appl(bits))
 
